@@ -333,6 +333,15 @@ func c08Jobs(tier string) []string {
 		jobs = append(jobs, fmt.Sprintf("churn:%d/4", i))
 	}
 	jobs = append(jobs, "keys")
+	for _, n := range []int{17, 20, 25, 33} {
+		strides := []int{2, 3, 4}
+		if tier == "thorough" {
+			strides = []int{2, 3, 4, 5, 6}
+		}
+		for _, st := range strides {
+			jobs = append(jobs, fmt.Sprintf("many:%d:%d", n, st))
+		}
+	}
 	for _, c := range cfgs {
 		sh := 8
 		for i := 0; i < sh; i++ {
@@ -418,6 +427,103 @@ func c08Churn(i, n int, r *engine.Result) []engine.Violation {
 			r.Nontrivial++
 		}
 	}
+	return out
+}
+
+// c08Many: datagrams of many fragments (the hole list outgrows its initial capacity of 16).
+// Arrival orders: the fragments are dealt into st residue classes (i mod st); every
+// permutation of the classes, each class ascending or descending; and each such order again
+// with one duplicate of any fragment inserted at any later position. The datagram must be
+// handed up exactly when the last distinct fragment arrives, with the right content.
+func c08ManyOne(n int, order []int, content []byte, r *engine.Result) string {
+	vtime.EnableVirtual()
+	f := fragmentation.NewFragmentation(1<<20, 1<<19, 30*time.Second)
+	got := make([]bool, n)
+	have := 0
+	for k, u := range order {
+		res, done := f.Process(77, uint16(u*8), uint16(u*8+7), u < n-1, c08VV(content[u*8:u*8+8], 3))
+		r.Transitions++
+		if !got[u] {
+			got[u] = true
+			have++
+		}
+		switch {
+		case have == n && !done:
+			return fmt.Sprintf("lost: fragment #%d (unit %d) completed the set of %d but nothing was handed up", k, u, n)
+		case have < n && done:
+			return fmt.Sprintf("early: %d bytes handed up after fragment #%d although only %d of %d fragments have arrived", res.Size(), k, have, n)
+		case done && !bytes.Equal(res.ToView(), content):
+			return "payload: the datagram handed up differs from the original"
+		}
+		if done {
+			break
+		}
+	}
+	return ""
+}
+
+func c08Many(n, st int, r *engine.Result) []engine.Violation {
+	var out []engine.Violation
+	content := c08Content(n, st, n*8)
+	run := func(order []int, what string) bool {
+		msg := c08ManyOne(n, order, content, r)
+		if msg != "" {
+			if len(out) < 3 {
+				out = append(out, engine.Violation{Property: "C08", Kind: "reassembly", Key: "many:" + strings.SplitN(msg, ":", 2)[0], Detail: fmt.Sprintf("%s; arrival order (units) %v: %s", what, order, msg), Replay: engine.MustJSON(map[string]interface{}{"many": order, "n": n, "st": st})})
+			}
+			return false
+		}
+		r.Execs++
+		r.Nontrivial++
+		return true
+	}
+	classes := make([][]int, st)
+	for u := 0; u < n; u++ {
+		classes[u%st] = append(classes[u%st], u)
+	}
+	perm := make([]int, st)
+	for i := range perm {
+		perm[i] = i
+	}
+	var rec func(k int)
+	rec = func(k int) {
+		if len(out) >= 3 {
+			return
+		}
+		if k == st {
+			for dirs := 0; dirs < 1<<uint(st); dirs++ {
+				var order []int
+				for q, c := range perm {
+					cl := classes[c]
+					for j := range cl {
+						if dirs&(1<<uint(q)) != 0 {
+							order = append(order, cl[len(cl)-1-j])
+						} else {
+							order = append(order, cl[j])
+						}
+					}
+				}
+				if !run(order, "no duplicate") {
+					return
+				}
+				for i := 0; i < n-1; i++ {
+					for j := i + 1; j < n; j++ {
+						o2 := append(append(append([]int{}, order[:j]...), order[i]), order[j:]...)
+						if !run(o2, fmt.Sprintf("fragment #%d repeated before #%d", i, j)) {
+							return
+						}
+					}
+				}
+			}
+			return
+		}
+		for i := k; i < st; i++ {
+			perm[k], perm[i] = perm[i], perm[k]
+			rec(k + 1)
+			perm[k], perm[i] = perm[i], perm[k]
+		}
+	}
+	rec(0)
 	return out
 }
 
@@ -550,6 +656,19 @@ func c08Run(job, tier string, deadline time.Time) *engine.Result {
 		r.Sample(map[string]interface{}{"keys": "3 base tuples x 2805 single-octet variants; collision search over 2^22 tuples"})
 		return r
 	}
+	if strings.HasPrefix(job, "many:") {
+		var n, st int
+		fmt.Sscanf(job, "many:%d:%d", &n, &st)
+		r.Violations = c08Many(n, st, r)
+		for k := range r.Violations {
+			r.Violations[k].Job = job
+		}
+		r.States = r.Execs + 1
+		r.Outcomes = []uint64{engine.Hash(job, len(r.Violations))}
+		r.Bound = fmt.Sprintf("datagram of %d one-unit fragments; arrival orders = every permutation and direction of the %d residue classes mod %d, each also with one duplicate of any fragment inserted at any later position", n, st, st)
+		r.Sample(map[string]interface{}{"many": r.Bound})
+		return r
+	}
 	if strings.HasPrefix(job, "churn:") {
 		var i, n int
 		fmt.Sscanf(job, "churn:%d/%d", &i, &n)
@@ -597,6 +716,17 @@ func c08Replay(rp json.RawMessage) *engine.Violation {
 				vv := v
 				return &vv
 			}
+		}
+		return nil
+	}
+	var mn struct {
+		Many []int `json:"many"`
+		N    int   `json:"n"`
+		St   int   `json:"st"`
+	}
+	if json.Unmarshal(rp, &mn) == nil && len(mn.Many) > 0 {
+		if msg := c08ManyOne(mn.N, mn.Many, c08Content(mn.N, mn.St, mn.N*8), &engine.Result{}); msg != "" {
+			return &engine.Violation{Property: "C08", Kind: "reassembly", Key: "many:" + strings.SplitN(msg, ":", 2)[0], Detail: fmt.Sprintf("arrival order (units) %v: %s", mn.Many, msg)}
 		}
 		return nil
 	}
